@@ -73,3 +73,132 @@ Theorem C05_source_line_rank_unchecked : forall ws symbol i, symbol < 256 -> i <
   g_qline_rank_unchecked ws symbol i = qline_rank_unchecked ws symbol i.
 Proof. exact g_qline_rank_unchecked_ok. Qed.
 Print Assumptions C05_source_line_rank_unchecked.
+
+From QwtModel Require Import Loops FnsRss FnsRssOk RSQBuild.
+
+(* ---- T5: the SEARCHES of the rank/select support REGENERATED from
+   src/qvector/rs_qvector/rs_support_plain.rs on every run (tools/gen_fns.py -> Gen/FnsRss.v; RSSupportPlain<B>
+   monomorphised for B = 256 and B = 512): block_predecessor (the for loop over the seven 12-bit counters),
+   rank_block, select_block (sample lookup, sqrt-step scan, linear scan, predecessor) are EQUAL to the hand model
+   (value or fault) on every well-typed directory, for every fuel above the number of superblocks; and on the
+   directory the constructor builds they return the block of the requested occurrence with its rank. *)
+Theorem C05_source_block_predecessor : forall counters symbol target,
+  g_sb_block_predecessor counters symbol target = sb_block_predecessor counters symbol target.
+Proof. exact g_sb_block_predecessor_ok. Qed.
+Print Assumptions C05_source_block_predecessor.
+Theorem C05_source_rank_block_256 : forall r symbol i,
+  g_rss256_rank_block (rs_superblocks r) symbol i = rss_rank_block 256 r symbol i.
+Proof. exact g_rss256_rank_block_ok. Qed.
+Print Assumptions C05_source_rank_block_256.
+Theorem C05_source_rank_block_512 : forall r symbol i,
+  g_rss512_rank_block (rs_superblocks r) symbol i = rss_rank_block 512 r symbol i.
+Proof. exact g_rss512_rank_block_ok. Qed.
+Print Assumptions C05_source_rank_block_512.
+Theorem C05_source_select_block_256 : forall r symbol i fuel, i < 2 ^ 64 ->
+  Forall (Forall (fun x => x < 2 ^ 32)) (rs_samples r) -> Forall (Forall (fun w => w < 2 ^ 128)) (rs_superblocks r) ->
+  (S (length (rs_superblocks r)) <= fuel)%nat ->
+  g_rss256_select_block fuel (rs_superblocks r) (rs_samples r) symbol i = rss_select_block 256 r symbol i.
+Proof. exact g_rss256_select_block_ok. Qed.
+Print Assumptions C05_source_select_block_256.
+Theorem C05_source_select_block_512 : forall r symbol i fuel, i < 2 ^ 64 ->
+  Forall (Forall (fun x => x < 2 ^ 32)) (rs_samples r) -> Forall (Forall (fun w => w < 2 ^ 128)) (rs_superblocks r) ->
+  (S (length (rs_superblocks r)) <= fuel)%nat ->
+  g_rss512_select_block fuel (rs_superblocks r) (rs_samples r) symbol i = rss_select_block 512 r symbol i.
+Proof. exact g_rss512_select_block_ok. Qed.
+Print Assumptions C05_source_select_block_512.
+Theorem C05_source_directory_typed : forall bsize s rs, (bsize = 256 \/ bsize = 512) -> len s < RSQ_MAXN ->
+  Forall (fun x => x < 4) s -> rss_new bsize s = Val rs ->
+  Forall (Forall (fun x => x < 2 ^ 32)) (rs_samples rs) /\ Forall (Forall (fun w => w < 2 ^ 128)) (rs_superblocks rs) /\
+  length (rs_superblocks rs) = S (N.to_nat (len s / (8 * bsize))).
+Proof. exact rss_new_typed. Qed.
+Print Assumptions C05_source_directory_typed.
+Theorem C05_source_select_block_e2e_256 : forall s rs c k fuel,
+  len s < RSQ_MAXN -> Forall (fun x => x < 4) s -> rss_new 256 s = Val rs -> c <= 3 -> k < countN c s ->
+  (S (S (N.to_nat (len s / 2048))) <= fuel)%nat ->
+  exists pos, g_rss256_select_block fuel (rs_superblocks rs) (rs_samples rs) c (k + 1)
+              = Val (pos, rank_spec s c pos) /\
+    pos mod 256 = 0 /\ rank_spec s c pos <= k /\ k < rank_spec s c (pos + 256).
+Proof. exact g_rss256_select_block_e2e. Qed.
+Print Assumptions C05_source_select_block_e2e_256.
+Theorem C05_source_select_block_e2e_512 : forall s rs c k fuel,
+  len s < RSQ_MAXN -> Forall (fun x => x < 4) s -> rss_new 512 s = Val rs -> c <= 3 -> k < countN c s ->
+  (S (S (N.to_nat (len s / 4096))) <= fuel)%nat ->
+  exists pos, g_rss512_select_block fuel (rs_superblocks rs) (rs_samples rs) c (k + 1)
+              = Val (pos, rank_spec s c pos) /\
+    pos mod 512 = 0 /\ rank_spec s c pos <= k /\ k < rank_spec s c (pos + 512).
+Proof. exact g_rss512_select_block_e2e. Qed.
+Print Assumptions C05_source_select_block_e2e_512.
+
+From QwtModel Require Import QVecP FnsQv2 FnsRsq FnsQv2Ok FnsRsqOk.
+
+(* ---- T5: the whole query API of RSQVector REGENERATED from src/qvector/rs_qvector.rs and src/qvector/mod.rs
+   (tools/gen_fns.py -> Gen/FnsRsq.v, Gen/FnsQv2.v; RSQVector<RSSupportPlain<B>> monomorphised for B = 256, 512),
+   working on the WORD view of the data lines (four u128 per line, `rsq_wdata r` = the packed list view) and on the
+   fields of the structure the hand-modelled constructor builds: for every input sequence, get / rank / select /
+   occs / occs_smaller and their unchecked variants return exactly the list specification of the stored symbols
+   (map sym4 vs), for every fuel above the number of superblocks.  No premise about the regenerated code is left. *)
+Theorem C05_source_rank_256 : forall vs r, len vs < RSQ_MAXN -> rsq_new 256 vs = Val r -> forall c i,
+  g_rsq256_rank (rsq_wdata r) (rsq_pos r) (rs_superblocks (rsq_rs r)) c i
+  = Val (if (c <=? 3) && (i <=? len vs) then Some (rank_spec (map sym4 vs) c i) else None).
+Proof. exact g_rsq256_rank_new. Qed.
+Print Assumptions C05_source_rank_256.
+Theorem C05_source_rank_512 : forall vs r, len vs < RSQ_MAXN -> rsq_new 512 vs = Val r -> forall c i,
+  g_rsq512_rank (rsq_wdata r) (rsq_pos r) (rs_superblocks (rsq_rs r)) c i
+  = Val (if (c <=? 3) && (i <=? len vs) then Some (rank_spec (map sym4 vs) c i) else None).
+Proof. exact g_rsq512_rank_new. Qed.
+Print Assumptions C05_source_rank_512.
+Theorem C05_source_select_256 : forall vs r, len vs < RSQ_MAXN -> rsq_new 256 vs = Val r ->
+  forall c k fuel, k < 2 ^ 64 -> (S (S (N.to_nat (len vs / (8 * 256)))) <= fuel)%nat ->
+  g_rsq256_select fuel (rsq_wdata r) (rs_superblocks (rsq_rs r)) (rs_samples (rsq_rs r))
+    (rsq_occs_smaller r) c k
+  = Val (if c <=? 3 then select_spec (map sym4 vs) c k else None).
+Proof. exact g_rsq256_select_new. Qed.
+Print Assumptions C05_source_select_256.
+Theorem C05_source_select_512 : forall vs r, len vs < RSQ_MAXN -> rsq_new 512 vs = Val r ->
+  forall c k fuel, k < 2 ^ 64 -> (S (S (N.to_nat (len vs / (8 * 512)))) <= fuel)%nat ->
+  g_rsq512_select fuel (rsq_wdata r) (rs_superblocks (rsq_rs r)) (rs_samples (rsq_rs r))
+    (rsq_occs_smaller r) c k
+  = Val (if c <=? 3 then select_spec (map sym4 vs) c k else None).
+Proof. exact g_rsq512_select_new. Qed.
+Print Assumptions C05_source_select_512.
+Theorem C05_source_select_unchecked_256 : forall vs r, len vs < RSQ_MAXN -> rsq_new 256 vs = Val r ->
+  forall c k p fuel, c <= 3 -> select_spec (map sym4 vs) c k = Some p ->
+  (S (S (N.to_nat (len vs / (8 * 256)))) <= fuel)%nat ->
+  g_rsq256_select_unchecked fuel (rsq_wdata r) (rs_superblocks (rsq_rs r)) (rs_samples (rsq_rs r))
+    (rsq_occs_smaller r) c k = Val p.
+Proof. exact g_rsq256_select_unchecked_new. Qed.
+Print Assumptions C05_source_select_unchecked_256.
+Theorem C05_source_select_unchecked_512 : forall vs r, len vs < RSQ_MAXN -> rsq_new 512 vs = Val r ->
+  forall c k p fuel, c <= 3 -> select_spec (map sym4 vs) c k = Some p ->
+  (S (S (N.to_nat (len vs / (8 * 512)))) <= fuel)%nat ->
+  g_rsq512_select_unchecked fuel (rsq_wdata r) (rs_superblocks (rsq_rs r)) (rs_samples (rsq_rs r))
+    (rsq_occs_smaller r) c k = Val p.
+Proof. exact g_rsq512_select_unchecked_new. Qed.
+Print Assumptions C05_source_select_unchecked_512.
+Theorem C05_source_get : forall bsize vs r, (bsize = 256 \/ bsize = 512) -> len vs < RSQ_MAXN ->
+  rsq_new bsize vs = Val r -> forall i,
+  g_rsq256_get (rsq_wdata r) (rsq_pos r) i = Val (nthN (map sym4 vs) i) /\
+  g_rsq512_get (rsq_wdata r) (rsq_pos r) i = Val (nthN (map sym4 vs) i).
+Proof. exact g_rsq_get_new. Qed.
+Print Assumptions C05_source_get.
+Theorem C05_source_occs : forall bsize vs r, (bsize = 256 \/ bsize = 512) -> len vs < RSQ_MAXN ->
+  rsq_new bsize vs = Val r -> forall c,
+  g_rsq256_occs (rsq_occs_smaller r) c = Val (if c <=? 3 then Some (countN c (map sym4 vs)) else None) /\
+  g_rsq512_occs (rsq_occs_smaller r) c = Val (if c <=? 3 then Some (countN c (map sym4 vs)) else None).
+Proof. exact g_rsq_occs_new. Qed.
+Print Assumptions C05_source_occs.
+Theorem C05_source_occs_smaller : forall bsize vs r, (bsize = 256 \/ bsize = 512) -> len vs < RSQ_MAXN ->
+  rsq_new bsize vs = Val r -> forall c,
+  g_rsq256_occs_smaller (rsq_occs_smaller r) c = Val (if c <=? 3 then Some (count_lt c (map sym4 vs)) else None) /\
+  g_rsq512_occs_smaller (rsq_occs_smaller r) c = Val (if c <=? 3 then Some (count_lt c (map sym4 vs)) else None).
+Proof. exact g_rsq_occs_smaller_new. Qed.
+Print Assumptions C05_source_occs_smaller.
+Theorem C05_source_len : forall bsize vs r, (bsize = 256 \/ bsize = 512) -> len vs < RSQ_MAXN ->
+  rsq_new bsize vs = Val r ->
+  g_rsq256_len (rsq_pos r) = Val (len vs) /\ g_rsq512_len (rsq_pos r) = Val (len vs).
+Proof. exact g_rsq_len_new. Qed.
+Print Assumptions C05_source_len.
+(* non-vacuity: the regenerated functions evaluated on the word view of the 600-symbol example *)
+Theorem C05_source_example : g_rsq_example_checks256 /\ g_rsq_example_checks512.
+Proof. exact (conj g_rsq_example_256 g_rsq_example_512). Qed.
+Print Assumptions C05_source_example.
